@@ -52,6 +52,10 @@ type Server struct {
 	wg         *sync.WaitGroup
 	onConnect  ConnectHook
 	onClose    TerminateHook
+	// closing is set by Shutdown, under mu, before it waits for the connections.
+	// Serve registers a new connection in wg under the same lock, and only while not closing.
+	mu      sync.Mutex
+	closing bool
 }
 
 // ConnectHook wraps the configured connectHook function, calling it with the provided context.
@@ -89,16 +93,14 @@ func NewServer(listener net.Listener, handler RequestHandler) *Server {
 	ctx, cancel := context.WithCancel(context.Background())
 	recvCtx, recvCancel := context.WithCancel(context.Background())
 	return &Server{
-		listener,
-		handler,
-		slog.Default(),
-		ctx,
-		cancel,
-		recvCtx,
-		recvCancel,
-		new(sync.WaitGroup),
-		nil,
-		nil,
+		listener:   listener,
+		handler:    handler,
+		logger:     slog.Default(),
+		ctx:        ctx,
+		cancel:     cancel,
+		recvCtx:    recvCtx,
+		recvCancel: recvCancel,
+		wg:         new(sync.WaitGroup),
 	}
 }
 
@@ -143,7 +145,16 @@ func (srv *Server) Serve() error {
 			//TODO: Return a shutdown error if shutdown has been requested
 			return err
 		}
+		// A connection accepted while Shutdown is starting must not be registered once Shutdown
+		// waits for the connections (WaitGroup misuse, and a connection outliving Shutdown).
+		srv.mu.Lock()
+		if srv.closing {
+			srv.mu.Unlock()
+			_ = conn.Close()
+			return ErrShutdown
+		}
 		srv.wg.Add(1)
+		srv.mu.Unlock()
 		go srv.handleConn(conn)
 	}
 }
@@ -167,6 +178,9 @@ func (srv *Server) Shutdown() error {
 		srv.cancel()
 	})
 	// 4. Wait for running requests completion
+	srv.mu.Lock()
+	srv.closing = true
+	srv.mu.Unlock()
 	srv.wg.Wait()
 	tm.Stop()
 	// 5. Cancel server root context
